@@ -1059,6 +1059,133 @@ def rule_ext(ctx, px):
     ctx.ob(R, envb.module.rel, "CodeGenEnvironmentBuilder.DEFAULT_JINJA_EXTENSIONS", dflt == "[jinja_do, loopcontrols, JinjaAssert, UseQuery]", str(dflt))
 
 
+def rule_engine_siblings(ctx):
+    """R-C19-EXT, agreement between sibling implementations inside the bundled engine - what a template means must not depend on which
+    of two code paths evaluates it:
+    (1) constant folding (nodes.py `_binop_to_func`, `_uaop_to_func`, `_cmpop_to_func`) computes, for every operator key, the Python
+        operation the compiler emits for that key (compiler.py `operators`, visit_<BinOp>) with the operands in source order - an
+        expression over literals is folded at compile time, the same expression over variables runs the emitted code;
+    (2) Context.get_all() and resolve_or_missing() agree on who wins a name that is both in the template's own variables (`vars`) and
+        in the render context / globals (`parent`): the lookup asks vars first, so the merged view lets vars override parent - the
+        merged view is what include / import-with-context hand to the other template."""
+    R = "R-C19-EXT"
+    ntree, npath = _parse_module(ctx, "jinja/jinja2/nodes.py")
+    ctree, cpath = _parse_module(ctx, "jinja/jinja2/compiler.py")
+    rtree, rpath = _parse_module(ctx, "jinja/jinja2/runtime.py")
+    tables = {}
+    for st in ntree.body:
+        if isinstance(st, ast.Assign) and isinstance(st.targets[0], ast.Name) and st.targets[0].id in ("_binop_to_func", "_uaop_to_func", "_cmpop_to_func") and isinstance(st.value, ast.Dict):
+            tables[st.targets[0].id] = st.value
+    if len(tables) != 3:
+        raise AnalysisError("anchor missing: the operator tables of nodes.py")
+    emitted = next((st.value for st in ctree.body if isinstance(st, ast.Assign) and isinstance(st.targets[0], ast.Name) and st.targets[0].id == "operators" and isinstance(st.value, ast.Dict)), None)
+    if emitted is None:
+        raise AnalysisError("anchor missing: compiler.operators")
+    PY_CMP = {"==": (ast.Eq, "eq"), "!=": (ast.NotEq, "ne"), ">": (ast.Gt, "gt"), ">=": (ast.GtE, "ge"), "<": (ast.Lt, "lt"), "<=": (ast.LtE, "le"),
+              "in": (ast.In, None), "not in": (ast.NotIn, None)}
+    PY_BIN = {"*": (ast.Mult, "mul"), "/": (ast.Div, "truediv"), "//": (ast.FloorDiv, "floordiv"), "**": (ast.Pow, "pow"), "%": (ast.Mod, "mod"),
+              "+": (ast.Add, "add"), "-": (ast.Sub, "sub")}
+    PY_UN = {"not": (ast.Not, "not_"), "+": (ast.UAdd, "pos"), "-": (ast.USub, "neg")}
+
+    def fold_ok(fn, opcls, opname, arity):
+        """is `fn` the function (a, b) -> a <op> b (operands in order)?"""
+        if isinstance(fn, ast.Attribute) and isinstance(fn.value, ast.Name) and fn.value.id == "operator":
+            return opname is not None and fn.attr == opname
+        if isinstance(fn, ast.Lambda) and len(fn.args.args) == arity:
+            ps = [a.arg for a in fn.args.args]
+            b = fn.body
+            if arity == 2 and isinstance(b, ast.Compare) and len(b.ops) == 1:
+                return isinstance(b.ops[0], opcls) and ast.unparse(b.left) == ps[0] and ast.unparse(b.comparators[0]) == ps[1]
+            # operator.contains(container, item) is `item in container`
+            neg = isinstance(b, ast.UnaryOp) and isinstance(b.op, ast.Not)
+            c_ = b.operand if neg else b
+            if arity == 2 and isinstance(c_, ast.Call) and ast.unparse(c_.func) == "operator.contains" and len(c_.args) == 2 and opcls in (ast.In, ast.NotIn):
+                return (opcls is ast.NotIn) == neg and ast.unparse(c_.args[0]) == ps[1] and ast.unparse(c_.args[1]) == ps[0]
+            if arity == 2 and isinstance(b, ast.BinOp):
+                return isinstance(b.op, opcls) and ast.unparse(b.left) == ps[0] and ast.unparse(b.right) == ps[1]
+            if arity == 1 and isinstance(b, ast.UnaryOp):
+                return isinstance(b.op, opcls) and ast.unparse(b.operand) == ps[0]
+        return False
+
+    n = 0
+    em = {k.value: v.value for k, v in zip(emitted.keys, emitted.values) if isinstance(k, ast.Constant) and isinstance(v, ast.Constant)}
+    for k, v in zip(tables["_cmpop_to_func"].keys, tables["_cmpop_to_func"].values):
+        key = k.value if isinstance(k, ast.Constant) else None
+        n += 1
+        want = PY_CMP.get(em.get(key))
+        ok = want is not None and fold_ok(v, want[0], want[1], 2)
+        ctx.ob(R, ctx.rel(npath), f"nodes._cmpop_to_func[{key!r}] folds what the compiler emits for it (`a {em.get(key)} b`, operands in order)", ok,
+               "" if ok else f"`{ast.unparse(v)}`: a comparison between literals is folded to a different result than the same comparison between variables gives at run time",
+               v.lineno)
+    ok = set(em) == {kk.value for kk in tables["_cmpop_to_func"].keys if isinstance(kk, ast.Constant)}
+    ctx.ob(R, ctx.rel(npath), "nodes._cmpop_to_func and compiler.operators have the same keys", ok, "", tables["_cmpop_to_func"].lineno)
+    for name, PY, arity in (("_binop_to_func", PY_BIN, 2), ("_uaop_to_func", PY_UN, 1)):
+        for k, v in zip(tables[name].keys, tables[name].values):
+            key = k.value if isinstance(k, ast.Constant) else None
+            n += 1
+            want = PY.get(key)
+            ok = want is not None and fold_ok(v, want[0], want[1], arity)
+            ctx.ob(R, ctx.rel(npath), f"nodes.{name}[{key!r}] is Python's `{key}`", ok, "" if ok else f"`{ast.unparse(v)}`", v.lineno)
+    ctx.floor(R + ":fold-tables", n, 15)
+    # (2) vars over parent, in the lookup and in the merged view
+    rom = next((f for f in rtree.body if isinstance(f, ast.FunctionDef) and f.name == "resolve_or_missing"), None)
+    ctxc = next((c for c in rtree.body if isinstance(c, ast.ClassDef) and c.name == "Context"), None)
+    ga = next((f for f in (ctxc.body if ctxc else []) if isinstance(f, ast.FunctionDef) and f.name == "get_all"), None)
+    if rom is None or ga is None:
+        raise AnalysisError("anchor missing: runtime.resolve_or_missing / Context.get_all")
+    cp = rom.args.args[0].arg
+    order = [ast.unparse(st.test) for st in rom.body if isinstance(st, ast.If)]
+    first = "vars" if order and order[0].endswith(f"{cp}.vars") else ("parent" if order and order[0].endswith(f"{cp}.parent") else None)
+    ctx.ob(R, ctx.rel(rpath), "resolve_or_missing asks the template's own variables before the parent context", first == "vars", f"tests {order}", rom.lineno)
+
+    def winner(e, env):
+        """who overrides whom in a merged-dict expression: 'vars' | 'parent' | None"""
+        e = env.get(e.id, e) if isinstance(e, ast.Name) else e
+        if isinstance(e, ast.Call) and isinstance(e.func, ast.Name) and e.func.id == "dict" and len(e.args) == 1 and len(e.keywords) == 1 and e.keywords[0].arg is None:
+            base, over = ast.unparse(e.args[0]), ast.unparse(e.keywords[0].value)
+        elif isinstance(e, ast.Dict) and len(e.keys) == 2 and all(k is None for k in e.keys):
+            base, over = ast.unparse(e.values[0]), ast.unparse(e.values[1])
+        else:
+            return None
+        return "vars" if (base, over) == ("self.parent", "self.vars") else ("parent" if (base, over) == ("self.vars", "self.parent") else None)
+
+    n_m = 0
+    for path in pyfront.enumerate_paths(ga.body):
+        if path.outcome != "return":
+            continue
+        r = path.stmts[-1]
+        terms = pyfront.guard_terms([c_ for c_ in path.conds if not isinstance(c_[0], str)])
+        if ("self.vars", False) in terms or ("self.parent", False) in terms:
+            continue          # one side is empty: nothing to merge
+        if ast.unparse(r.value) in ("self.vars", "self.parent", "self.vars or self.parent", "self.parent or self.vars"):
+            both = ("self.vars", True) in terms and ("self.parent", True) in terms
+            if both:
+                n_m += 1
+                ctx.ob(R, ctx.rel(rpath), "Context.get_all :: the template's own variables override the parent context in the merged view, as in the lookup", False,
+                       f"`return {ast.unparse(r.value)}` where both sides have content: one of them is dropped", r.lineno)
+            continue          # a single side handed out where the path does not establish that both have content
+        n_m += 1
+        env, upd = {}, {}
+        for st in path.stmts[:-1]:
+            if isinstance(st, ast.Assign) and len(st.targets) == 1 and isinstance(st.targets[0], ast.Name):
+                env[st.targets[0].id] = st.value
+            elif isinstance(st, ast.Expr) and isinstance(st.value, ast.Call) and isinstance(st.value.func, ast.Attribute) and st.value.func.attr == "update" \
+                    and isinstance(st.value.func.value, ast.Name) and len(st.value.args) == 1:
+                upd.setdefault(st.value.func.value.id, []).append(ast.unparse(st.value.args[0]))
+        w = winner(r.value, env)
+        if w is None and isinstance(r.value, ast.Name) and r.value.id in env and r.value.id in upd:
+            base = env[r.value.id]
+            base_t = ast.unparse(base.args[0]) if isinstance(base, ast.Call) and isinstance(base.func, ast.Name) and base.func.id == "dict" and len(base.args) == 1 and not base.keywords else ast.unparse(base)
+            if base_t == "self.parent" and upd[r.value.id] == ["self.vars"]:
+                w = "vars"
+            elif base_t == "self.vars" and upd[r.value.id] == ["self.parent"]:
+                w = "parent"
+        ctx.ob(R, ctx.rel(rpath), "Context.get_all :: the template's own variables override the parent context in the merged view, as in the lookup", w == "vars",
+               "" if w == "vars" else ("the parent context overrides the template's own variables: an included / imported-with-context template sees the render "
+                                       "context's value of a name the including template has set" if w == "parent" else f"merge `{ast.unparse(r.value)}` not recognised"), r.lineno)
+    ctx.floor(R + ":merged-view", n_m, 1)
+
+
 def rule_compiler_scopes(ctx):
     """R-C19-EXT, two scoping facts of the stock compiler that unmarked templates can observe (read from the bundled compiler.py, helper
     methods followed in place):
@@ -1186,3 +1313,4 @@ def run(ctx):
     rule_lineprefix(ctx)
     rule_ext(ctx, px)
     rule_compiler_scopes(ctx)
+    rule_engine_siblings(ctx)
